@@ -22,10 +22,12 @@ THEOREMS = [
     "C10.neg_query_effect",
     "C10.neg_not_provable_restores",
     "C10.neg_query_frames_balanced",
+    # a Null fact is restored as Null, not as "absent" (RreModel/C09/ValTheorems.lean)
+    "C10.failed_query_keeps_null",
 ]
-LEAN_TARGETS = ["RreModel.C10.Theorems", "RreModel.C10.SearchTheorems", "RreModel.C09.ExtTheorems"]
+LEAN_TARGETS = ["RreModel.C10.Theorems", "RreModel.C10.SearchTheorems", "RreModel.C09.ExtTheorems", "RreModel.C09.ValTheorems"]
 LEAN_FILES = ["RreModel/C09/Model.lean", "RreModel/C09/Spec.lean", "RreModel/C09/Lemmas.lean", "RreModel/C09/Candidates.lean",
-              "RreModel/C09/Ext.lean", "RreModel/C09/ExtTheorems.lean"]
+              "RreModel/C09/Ext.lean", "RreModel/C09/ExtTheorems.lean", "RreModel/C09/ValTheorems.lean"]
 EXTRA_BINS = ["c09"]
 N_B = {"quick": 1500, "thorough": 20000}
 
